@@ -446,50 +446,108 @@ func R38() Rule {
 			return ok && core.TypeIs(mt.Elem(), "cloud.google.com/go/bigtable/admin/apiv2/adminpb", "ColumnFamily")
 		}
 		n := 0
-		for _, b := range fn.Blocks {
-			for _, in := range b.Instrs {
-				call, ok := in.(*ssa.Call)
-				if !ok {
-					continue
-				}
-				bi, ok := call.Call.Value.(*ssa.Builtin)
-				if !ok || bi.Name() != "delete" || !isFamMap(call.Call.Args[0]) {
-					continue
-				}
-				n++
-				// the purge: a Rows.Ascend dominated by the delete …
-				var purge ssa.Instruction
-				for _, ci := range core.AllCalls(fn) {
-					if isRowsMethod(ci, "Ascend") && core.InstrDominates(call, ci.Instr) {
-						purge = ci.Instr
+		P := c.P
+		// the RPC with the helpers it is split into (per-modification helper, purge helper, …)
+		scope := P.Scope(fn, func(f *ssa.Function) bool { return core.PkgPathOf(f) != core.PkgBttest })
+		// purges: a scan over all rows, or a call of a helper that certainly performs one
+		var mustPurge func(f *ssa.Function, depth int) bool
+		isPurgeSite := func(in ssa.Instruction, depth int) bool {
+			ci := core.Call(in)
+			if ci == nil {
+				return false
+			}
+			if isRowsMethod(ci, "Ascend") {
+				return true
+			}
+			return ci.Static != nil && ci.Static.Blocks != nil && core.PkgPathOf(ci.Static) == core.PkgBttest && depth < 4 && mustPurge(ci.Static, depth+1)
+		}
+		mustPurge = func(f *ssa.Function, depth int) bool {
+			for _, b := range f.Blocks {
+				for _, in := range b.Instrs {
+					if !isPurgeSite(in, depth) {
+						continue
+					}
+					onEvery := true
+					for _, r := range returnsIn(f) {
+						if r.Block() != b && !b.Dominates(r.Block()) {
+							onEvery = false
+						}
+					}
+					if onEvery {
+						return true
 					}
 				}
-				construct := fmt.Sprintf("ModifyColumnFamilies/drop#%d/purge-before-next-modification", n)
-				if purge == nil {
-					c.Bad("R38", construct, call.Pos(), "dropping a family is not followed by a purge of its cells")
-					continue
-				}
-				// … and no insertion into the family map is reachable from the delete without passing the purge
-				bad := false
-				for _, bb := range fn.Blocks {
-					for _, i2 := range bb.Instrs {
-						mu, isMU := i2.(*ssa.MapUpdate)
-						if !isMU || !isFamMap(mu.Map) {
-							continue
+			}
+			return false
+		}
+		for _, f := range scope {
+			for _, b := range f.Blocks {
+				for idx, in := range b.Instrs {
+					call, ok := in.(*ssa.Call)
+					if !ok {
+						continue
+					}
+					bi, ok := call.Call.Value.(*ssa.Builtin)
+					if !ok || bi.Name() != "delete" || !isFamMap(call.Call.Args[0]) {
+						continue
+					}
+					n++
+					construct := fmt.Sprintf("ModifyColumnFamilies/drop#%d/purge-before-next-modification", n)
+					// a purge later in the same block settles it
+					sameBlock := false
+					for _, later := range b.Instrs[idx+1:] {
+						if isPurgeSite(later, 0) {
+							sameBlock = true
 						}
-						var cut []cfgEdge
-						for _, s := range purge.Block().Succs {
-							cut = append(cut, cfgEdge{purge.Block(), s})
+					}
+					if sameBlock {
+						c.Ok("R38", construct, call.Pos(), true, "the purge follows the drop directly")
+						continue
+					}
+					// otherwise: from the drop, neither an insertion into the family map nor the end of
+					// this function (after which the next modification runs) is reachable without a purge
+					var cut []cfgEdge
+					nPurge := 0
+					for _, pb := range f.Blocks {
+						for _, pin := range pb.Instrs {
+							if isPurgeSite(pin, 0) {
+								nPurge++
+								for _, s := range pb.Succs {
+									cut = append(cut, cfgEdge{pb, s})
+								}
+							}
 						}
-						if reachableFromWithout(call.Block(), bb, cut) && purge.Block() != call.Block() {
+					}
+					if nPurge == 0 {
+						c.Bad("R38", construct, call.Pos(), "dropping a family is not followed by a purge of its cells")
+						continue
+					}
+					bad := false
+					for _, bb := range f.Blocks {
+						isTarget := false
+						for _, i2 := range bb.Instrs {
+							if mu, isMU := i2.(*ssa.MapUpdate); isMU && isFamMap(mu.Map) {
+								isTarget = true
+							}
+							if _, isRet := i2.(*ssa.Return); isRet {
+								// a return in a purge block comes after the purge
+								hasPurge := false
+								for _, pin := range bb.Instrs {
+									if isPurgeSite(pin, 0) {
+										hasPurge = true
+									}
+								}
+								if !hasPurge {
+									isTarget = true
+								}
+							}
+						}
+						if isTarget && reachableFromWithout(b, bb, cut) {
 							bad = true
 						}
-						if purge.Block() == call.Block() {
-							// same block: the purge follows the delete before the block ends — fine
-						}
 					}
+					c.Check(!bad, "R38", construct, call.Pos(), "the purge runs before any later create can re-insert the family", "a family created later in the same request can be re-inserted before the dropped family's cells were purged: drop+create of one family in one request keeps the old cells")
 				}
-				c.Check(!bad, "R38", construct, call.Pos(), "the purge runs before any later create can re-insert the family", "a family created later in the same request can be re-inserted before the dropped family's cells were purged: drop+create of one family in one request keeps the old cells")
 			}
 		}
 		if n == 0 {
